@@ -52,7 +52,11 @@ impl SparqlValue {
                     "float" => Some(Self::Number(SparqlNumber::try_parse::<f32>(lex)?)),
                     "double" => Some(Self::Number(SparqlNumber::try_parse::<f64>(lex)?)),
                     "string" => Some(Self::String(lex.clone(), None)),
-                    "boolean" => Some(Self::Boolean(lex.parse().ok())),
+                    "boolean" => Some(Self::Boolean(match lex.as_ref() {
+                        "true" | "1" => Some(true),
+                        "false" | "0" => Some(false),
+                        _ => None,
+                    })),
                     "dateTime" => Some(Self::DateTime(lex.parse().ok())),
                     "nonPositiveInteger" => Some(Self::Number(
                         SparqlNumber::try_parse_integer(lex)?.check(|n| !n.is_positive())?,
@@ -100,6 +104,42 @@ impl SparqlValue {
             (Boolean(b1), Boolean(b2)) => Some(b1 == b2),
             (DateTime(d1), DateTime(d2)) => d1.partial_cmp(d2).map(|o| o == Ordering::Equal),
             _ => None,
+        }
+    }
+
+    /// The rank, in ORDER BY, of the class of literals that this value belongs to.
+    ///
+    /// Values of different classes are never comparable with `<`.
+    /// See also [`SparqlValue::order_by_cmp`].
+    pub fn order_by_class(&self) -> u8 {
+        use SparqlValue::*;
+        match self {
+            Number(n) if n.exact_cmp(n).is_some() => 0,
+            Number(_) => 1, // NaN
+            String(_, None) => 2,
+            String(_, Some(_)) => 3,
+            Boolean(Some(_)) => 4,
+            DateTime(Some(_)) => 5,
+            Boolean(None) | DateTime(None) => Self::NO_ORDER_BY_CLASS,
+        }
+    }
+
+    /// The [`order_by_class`](SparqlValue::order_by_class) of literals that have no usable value
+    /// (unrecognized datatype, ill-formed lexical form).
+    pub const NO_ORDER_BY_CLASS: u8 = u8::MAX;
+
+    /// Compare two values of the same [`order_by_class`](SparqlValue::order_by_class) for ORDER BY.
+    ///
+    /// Inside each class, this is
+    /// * either a total preorder, consistent with `<`
+    ///   (i.e. `x < y` implies `x.order_by_cmp(y) == Some(Less)`),
+    /// * or always `None` (NaNs and ill-formed values, which `<` can not compare).
+    pub fn order_by_cmp(&self, other: &Self) -> Option<Ordering> {
+        use SparqlValue::*;
+        match (self, other) {
+            (Number(n1), Number(n2)) => n1.exact_cmp(n2),
+            (DateTime(Some(d1)), DateTime(Some(d2))) => Some(d1.timeline_cmp(d2)),
+            _ => self.partial_cmp(other),
         }
     }
 
